@@ -34,7 +34,7 @@ ASSUMPTIONS = [
     'parseable as a number',
 ]
 ANCHORS = ['Table.delimited_self', 'Table._extract_data_from_tsv', 'Table.from_tsv', '_convert', 'parse_biom_table']
-REQUIRED = ['exported_again_after_change', 'export_to_tsv', 'export_str', 'export_direct_io',
+REQUIRED = ['export_asked_for_absent_metadata', 'exported_again_after_change', 'export_to_tsv', 'export_str', 'export_direct_io',
             'export_cli', 'import_from_tsv_lines', 'import_from_tsv_handle',
             'import_load_table', 'import_load_table_gz',
             'import_parse_table_lines', 'import_cli_json', 'import_cli_hdf5',
@@ -120,6 +120,14 @@ def run_case(ctx, index):
     if with_md_export:
         kw = dict(header_key='taxonomy', header_value='taxonomy',
                   metadata_formatter=lambda x: '; '.join(x))
+    elif exporter in ('to_tsv', 'direct_io') and spec.obs_md is None and \
+            r.random() < .3:
+        # a metadata column is asked for, the table has no observation
+        # metadata to fill it with: the text is still this table
+        kw = dict(header_key='taxonomy', header_value=r.choice(
+            ['taxonomy', 'Consensus Lineage']))
+        desc['asked_for_absent_metadata'] = True
+        ctx.count('export_asked_for_absent_metadata')
     files = []
     try:
         if exporter == 'to_tsv':
